@@ -55,6 +55,7 @@ static volatile int g_spurious_seen = 0;
 static volatile int g_slow_us = 0;      // the saver's open of the temporary takes this long (slow disk)
 static volatile int g_fail_from = 0;    // writes to the settings file / temporary fail (ENOSPC) from this one on
 static volatile int g_writes = 0;
+static volatile int g_fail_close = 0, g_fail_rename = 0;   // the close / the rename of the next save fails (EIO)
 // holding the saver thread inside the k-th file system call of a save (burst operation B)
 static volatile int g_hold_at = 0, g_hold_count = 0;
 static sem_t g_reached, g_release;
@@ -146,6 +147,7 @@ int fclose(FILE *f) {
   char w = 0;
   if (!g_inside && fd_tracked(fd)) w = fd_untrack(fd);
   int r = real_fclose(f);
+  if (w && g_fail_close && g_capture) { event('X'); errno = EIO; return EOF; }
   if (w) event(w == 'c' ? 'C' : 'c');
   return r;
 }
@@ -197,6 +199,7 @@ ssize_t writev(int fd, const struct iovec *iov, int cnt) {
 }
 int rename(const char *a, const char *b) {
   RESOLVE(rename);
+  if (!g_inside && g_fail_rename && g_capture && (which(a) || which(b))) { event('x'); errno = EIO; return -1; }
   int r = real_rename(a, b);
   if (!g_inside && (which(a) || which(b))) event('R');
   return r;
@@ -389,6 +392,8 @@ static void port_act(ola::PortManager *pm, PortT *p, const string &act) {
 static string handle(const string &payload) {
   // every case starts from an empty directory and a new process
   g_inside++;
+  RESOLVE(unlink);
+  real_unlink((g_dir + "/real-settings").c_str());
   spit(g_conf, false, "");
   spit(g_tmp, false, "");
   g_inside--;
@@ -508,6 +513,15 @@ static string handle(const string &payload) {
              ";z" + n + "=" + file_s(has2, file2) + ";a" + n + "=" + (atomic ? "1" : "0") +
              ";xc" + n + "=" + (g_calls.empty() ? "-" : g_calls) + (held ? "" : "!nohold") + ";xi" + n + "=" + images;
       (void) saved2;
+    } else if (op == "Wc" || op == "Wr") {
+      // a save during which close() (Wc) or rename() (Wr) fails
+      (op == "Wc" ? g_fail_close : g_fail_rename) = 1;
+      SaveReport r = captured_save(PlainSave());
+      g_fail_close = g_fail_rename = 0;
+      Img fin = r.imgs.back();
+      out += "s" + n + "=" + g_store->Dump() + ";y" + n + "=" + file_s(r.at_return.has_conf, r.at_return.conf) +
+             ";f" + n + "=" + file_s(fin.has_conf, fin.conf) + ";t" + n + "=" + file_s(fin.has_tmp, fin.tmp) +
+             ";xc" + n + "=" + r.calls + ";xi" + n + "=" + r.images + ";a" + n + "=" + (r.atomic ? "1" : "0");
     } else if (op == "W") {
       // W:<k>  save during which every write from the k-th on fails with ENOSPC
       g_writes = 0;
@@ -518,6 +532,20 @@ static string handle(const string &payload) {
       out += "s" + n + "=" + g_store->Dump() + ";y" + n + "=" + file_s(r.at_return.has_conf, r.at_return.conf) +
              ";f" + n + "=" + file_s(fin.has_conf, fin.conf) + ";t" + n + "=" + file_s(fin.has_tmp, fin.tmp) +
              ";xc" + n + "=" + r.calls + ";xi" + n + "=" + r.images + ";a" + n + "=" + (r.atomic ? "1" : "0");
+    } else if (op == "K") {
+      // the settings file becomes a symbolic link to a file elsewhere in the directory (an
+      // administrator keeps the real file under version control); nothing else changes
+      g_inside++;
+      RESOLVE(unlink);
+      string data;
+      bool has = slurp(g_conf, &data);
+      const string real = g_dir + "/real-settings";
+      real_unlink(g_conf.c_str());
+      spit(real, true, has ? data : "");
+      if (symlink("real-settings", g_conf.c_str()) != 0) abort();
+      if (!has) real_unlink(real.c_str());    // dangling link = no settings file
+      g_inside--;
+      out += "s" + n + "=" + g_store->Dump();
     } else if (op == "lf") {
       // the other public loader, on the live object
       g_store->LoadFromFile(g_conf);
@@ -599,6 +627,7 @@ int main(int argc, char **argv) {
   real_unlink(g_conf.c_str());
   real_unlink(g_tmp.c_str());
   real_unlink((g_dir + "/img/ola-" + PREF_NAME + ".conf").c_str());
+  real_unlink((g_dir + "/real-settings").c_str());
   real_unlink((g_dir + "/ola-other.conf").c_str());
   real_unlink((g_dir + "/ola-other.conf.tmp").c_str());
   rmdir((g_dir + "/img").c_str());
